@@ -39,13 +39,25 @@ def main():
       import coverage
       cov = coverage.Coverage(data_file=os.path.join(tmp, ".coverage"))
       cov.combine([tmp])
+      # lines that run when the modules are merely imported (def / class statements, constants): the shards inherit the imported
+      # modules from the parent process, so these lines are never seen by the measurement and are left out of the account
+      imp_dir = tempfile.mkdtemp(prefix="vt-cov-imp-")
+      code = ("import coverage, importlib, pkgutil, sys\n"
+              "cov = coverage.Coverage(data_file=%r, include=[%r])\ncov.start()\n"
+              "import ttconv\n"
+              "for m in pkgutil.walk_packages(ttconv.__path__, 'ttconv.'):\n"
+              "  try:\n    importlib.import_module(m.name)\n  except Exception:\n    pass\n"
+              "cov.stop()\ncov.save()\n") % (os.path.join(imp_dir, ".coverage"), os.path.join(REPO, "src", "main", "python", "ttconv") + "/*")
+      subprocess.run([sys.executable, "-c", code], env=dict(os.environ, PYTHONPATH=os.path.join(REPO, "src", "main", "python")), capture_output=True)
+      imp = coverage.Coverage(data_file=os.path.join(imp_dir, ".coverage"))
+      imp.load()
       lines = ["# %s quick tier, exit %d, seed %s, tree %s" % (pid, r.returncode, os.environ.get("VERIF_SEED", "1"),
                subprocess.run("git -C %s rev-parse --short HEAD" % REPO, shell=True, capture_output=True, text=True).stdout.strip())]
       tot_e = tot_x = 0
       for f in props[pid]["anchors"]["files"]:
         path = os.path.join(REPO, f)
-        if not os.path.isfile(path):
-          lines.append("%s: not a file" % f)
+        if not os.path.isfile(path) or not path.endswith(".py"):
+          lines.append("%s: not a Python source file" % f)
           continue
         try:
           _, executable, _, missing, _ = cov.analysis2(path)
@@ -54,6 +66,13 @@ def main():
           continue
         # lines that only define things at import time are executed before the shards start: count a module that was imported
         # before measurement as 'not measured' rather than missed
+        try:
+          _, _, _, imp_missing, _ = imp.analysis2(path)
+          import_only = set(executable) - set(imp_missing)
+        except Exception:  # pylint: disable=broad-except
+          import_only = set()
+        executable = [l for l in executable if l not in import_only]
+        missing = [l for l in missing if l not in import_only]
         done = len(executable) - len(missing)
         tot_e += done; tot_x += len(executable)
         lines.append("%s: %d/%d lines executed (%.0f%%); never executed: %s" % (f, done, len(executable), 100.0 * done / max(1, len(executable)),
@@ -63,6 +82,8 @@ def main():
       print("\n".join(lines[:2]), flush=True)
     finally:
       shutil.rmtree(tmp, ignore_errors=True)
+      if "imp_dir" in locals():
+        shutil.rmtree(imp_dir, ignore_errors=True)
 
 
 if __name__ == "__main__":
